@@ -3,6 +3,7 @@
    same answer for the same request in every session, alive until EOF) is observed by the correspondence check. *)
 From Coq Require Import ZArith List Bool.
 Require Import CGT.Model.Date CGT.Model.Mcp CGT.Proofs.McpFacts.
+Require Import CGT.Model.Agg CGT.Model.Report CGT.Model.Config CGT.Proofs.DateFacts CGT.Proofs.SliceFacts CGT.Proofs.McpExplain.
 Import ListNotations.
 
 (* for every finite request sequence the answers are in bijection with the requests that carry an id, in order *)
@@ -21,6 +22,16 @@ Proof. intros Req Ans Id handle id_of rs i a. apply serve_answer. Qed.
    so every disposal listed by calculate_report lies in the year explain_matching computes *)
 Theorem C20_explain_year : forall d ymin ymax y, tax_year_of_gen 4 6 ymin ymax d = Some y -> explain_year d = y.
 Proof. exact explain_year_is_tax_year. Qed.
+
+(* explain_matching can explain every disposal calculate_report lists (report model): whichever tax year's summary of the all-years
+   report a disposal x appears in, the report filtered to the year explain_matching derives from x's date lists x, under the same year. *)
+Theorem C20_explain_finds_every_disposal : forall cfg l r_all ys x r_y,
+  dated_in_sweep (sort_disposals (sec_disposals P0 (eval_all P0 l))) ->
+  report_of P0 cfg None l = inr r_all -> In ys (r_years r_all) -> In x (y_disposals ys) ->
+  report_of P0 cfg (Some (explain_year (civil_of_days (d_date x)))) l = inr r_y ->
+  exists ys', r_years r_y = [ys'] /\ In x (y_disposals ys') /\ y_year ys' = y_year ys.
+Proof. exact explain_finds. Qed.
+Print Assumptions C20_explain_finds_every_disposal.
 
 Print Assumptions C20_one_response_each.
 Print Assumptions C20_history_free.
